@@ -1620,7 +1620,11 @@ func (e *CoreExtension) filterSlice(value interface{}, args ...interface{}) (int
 			}
 		}
 
-		return v[start:end], nil
+		// A private copy, like the typed-slice branch below: v[start:end] would share the caller's
+		// backing array (and its spare capacity) with whoever receives the result
+		result := make([]interface{}, end-start)
+		copy(result, v[start:end])
+		return result, nil
 	}
 
 	// Try reflection for other types
